@@ -44,10 +44,12 @@ TStep ==
     /\ l <= Len(Traces[tid].events)
     /\ LET e == Traces[tid].events[l]
            r == Eff(e.op, c)
-       IN /\ r.ok = e.ok
-          /\ ObsMatches(Obs(r.c), e.obs)
-          /\ c' = r.c
-    /\ l' = l + 1
+       IN IF e.op.op # "plural" /\ Unjudgeable(e.op, c)
+          THEN c' = c /\ l' = Len(Traces[tid].events) + 1       \* the rest of this trace is not judged
+          ELSE /\ r.ok = e.ok
+               /\ ObsMatches(Obs(r.c), e.obs)
+               /\ c' = r.c
+               /\ l' = l + 1
     /\ UNCHANGED <<hist, seed, fin, tid>>
 
 \* which clause refuses the next event ("" = it matches, or the trace is finished)
@@ -56,7 +58,8 @@ Why ==
     ELSE LET e == Traces[tid].events[l]
              r == Eff(e.op, c)
              exp == Obs(r.c)
-         IN IF r.ok # e.ok THEN "accepted"
+         IN IF e.op.op # "plural" /\ Unjudgeable(e.op, c) THEN ""
+            ELSE IF r.ok # e.ok THEN "accepted"
             ELSE IF e.obs.ids # exp.ids THEN "ids"
             ELSE IF ~ObsMatches([exp EXCEPT !.q = [kind |-> {"error"}]], e.obs) THEN "containers"
             ELSE IF ~ObsMatches(exp, e.obs) THEN "query"
